@@ -8,9 +8,9 @@ Import ListNotations.
    code tested *)
 Definition old_ok (it : item) : Prop :=
   match it with
-  | ICwWait _ old | ICwCas _ old => (cnt old <= 7)%N
+  | ICwWait _ old | ICwBlk _ old _ | ICwCas _ old => (cnt old <= 7)%N
   | IDlCas _ old => (cnt old <= 7)%N /\ dl old = false
-  | IDlWWait _ old => (cnt old <= 7)%N /\ dl old = true
+  | IDlWWait _ old | IDlWBlk _ old _ => (cnt old <= 7)%N /\ dl old = true
   | _ => True
   end.
 Definition olds_ok (c : cfg) : Prop := Forall (fun th => Forall old_ok (todo th)) (threads c).
